@@ -97,8 +97,11 @@ def pointAtBearingAndDistance (F : Fn α) (p : Pt α) (brg dist : α) : Pt α :=
   let aLon := deg2rad F p.x
   let bearingRadians := deg2rad F brg
   let distanceRatio := dist / F.R
-  let bLat := F.asin (F.sin aLat * F.cos distanceRatio +
-                      F.cos aLat * F.sin distanceRatio * F.cos bearingRadians)
+  let sinLat := F.sin aLat * F.cos distanceRatio +
+                F.cos aLat * F.sin distanceRatio * F.cos bearingRadians
+  -- `sinLat = math.Max(math.Min(sinLat, 1), -1)`: rounding can push it marginally beyond ±1
+  let sinLat := F.max (F.min sinLat 1) (-1)
+  let bLat := F.asin sinLat
   let bLon := aLon + F.atan2 (F.sin bearingRadians * F.sin distanceRatio * F.cos aLat)
                               (F.cos distanceRatio - F.sin aLat * F.sin bLat)
   ⟨rad2deg F bLon, rad2deg F bLat⟩
